@@ -82,7 +82,8 @@ def generate(rng, tier):
             sign = rng.choice([1, 1, -1])
             at = rng.randint(0, len(ops))
             for j in range(rng.choice([2, 2, 3])):
-                big = rng.choice([2 ** 63 - 1, 2 ** 63 - 1, 2 ** 63, 2 ** 64 + 3, 2 ** 63 - 1 - rng.randint(0, 40), 2 ** 31, 2 ** 32 + 1])
+                big = rng.choice([2 ** 63 - 1, 2 ** 63 - 1, 2 ** 63, 2 ** 64 + 3, 2 ** 63 - 1 - rng.randint(0, 40), 2 ** 31, 2 ** 32 + 1,
+                                  10 ** 400, 2 ** 1024 + 1])       # (the last two do not fit a float: grid arithmetic is exact anyway)
                 d = [0, 0, 0]
                 d[ax] = sign * big
                 ops.insert(at + j, {"op": "move", "k": k, "d": d, "sparse": rng.random() < 0.3, "huge": True})
